@@ -98,12 +98,12 @@ LongResolve(specs, name) ==
      ELSE [n |-> Cardinality(cs), i |-> 0]
 
 (***************************************************************************)
-(* Results.  An occurrence is [i, sp, k, d]: option specs[i]; sp = 0 for a *)
-(* long spelling, else the (1-based) position of the option letter after   *)
-(* the hyphen... precisely: OptionSpelling::Short(index) with index =      *)
-(* position of the letter in the field counted from 0, so 1 for the first  *)
-(* letter; k, d: the option-argument is argv[k] from its d-th character    *)
-(* on (k = 0: no option-argument).  p: operands are argv[p..].             *)
+(* Results.  An occurrence is [i, sp, f, k, d]: option specs[i], written   *)
+(* in argv[f]; sp = 0 for a long spelling, else OptionSpelling::Short(sp): *)
+(* position of the option letter in the field counted from 0 (1 = first    *)
+(* letter after the hyphen, larger = grouped); k, d: the option-argument   *)
+(* is argv[k] from its d-th character on (k = 0: no option-argument).      *)
+(* p: operands are argv[p..].                                              *)
 (* errs: every error class whose documented condition holds for the first  *)
 (* malformed element; at: index of the argument holding it.                *)
 (***************************************************************************)
@@ -112,7 +112,7 @@ ErrClasses == {"UnknownShort", "UnknownLong", "NonPortableShort", "NonPortableLo
 
 Ok(opts, p) == [ok |-> TRUE, opts |-> opts, p |-> p, errs |-> {}, at |-> 0]
 Err(errs, at) == [ok |-> FALSE, opts |-> <<>>, p |-> 0, errs |-> errs, at |-> at]
-Occ(i, sp, k, d) == [i |-> i, sp |-> sp, k |-> k, d |-> d]
+Occ(i, sp, f, k, d) == [i |-> i, sp |-> sp, f |-> f, k |-> k, d |-> d]
 Prepend(o, r) == IF r.ok THEN [r EXCEPT !.opts = <<o>> \o @] ELSE r
 
 \* An empty long name (`--=x`) is outside the documented syntax: README speaks
@@ -144,9 +144,9 @@ Cluster(specs, mode, argv, k, j) ==
                   \cup (IF o.a /\ attached /\ ~mode.same THEN {"Unseparated"} ELSE {})
                   \cup (IF o.a /\ ~attached /\ k = Len(argv) THEN {"MissingArg"} ELSE {})
       IN IF errs # {} THEN Err(errs, k)
-         ELSE IF ~o.a THEN Prepend(Occ(i, j - 1, 0, 0), Cluster(specs, mode, argv, k, j + 1))
-         ELSE IF attached THEN Prepend(Occ(i, j - 1, k, j + 1), ParseFrom(specs, mode, argv, k + 1))
-         ELSE Prepend(Occ(i, j - 1, k + 1, 1), ParseFrom(specs, mode, argv, k + 2))
+         ELSE IF ~o.a THEN Prepend(Occ(i, j - 1, k, 0, 0), Cluster(specs, mode, argv, k, j + 1))
+         ELSE IF attached THEN Prepend(Occ(i, j - 1, k, k, j + 1), ParseFrom(specs, mode, argv, k + 1))
+         ELSE Prepend(Occ(i, j - 1, k, k + 1, 1), ParseFrom(specs, mode, argv, k + 2))
 
 LongOption(specs, mode, argv, k) ==
   LET w == argv[k]
@@ -162,9 +162,9 @@ LongOption(specs, mode, argv, k) ==
                    \cup (IF ~o.a /\ eq # 0 THEN {"UnexpectedArg"} ELSE {})
                    \cup (IF o.a /\ eq = 0 /\ k = Len(argv) THEN {"MissingArg"} ELSE {})
        IN IF errs # {} THEN Err(errs, k)
-          ELSE IF ~o.a THEN Prepend(Occ(r.i, 0, 0, 0), ParseFrom(specs, mode, argv, k + 1))
-          ELSE IF eq # 0 THEN Prepend(Occ(r.i, 0, k, eq + 1), ParseFrom(specs, mode, argv, k + 1))
-          ELSE Prepend(Occ(r.i, 0, k + 1, 1), ParseFrom(specs, mode, argv, k + 2))
+          ELSE IF ~o.a THEN Prepend(Occ(r.i, 0, k, 0, 0), ParseFrom(specs, mode, argv, k + 1))
+          ELSE IF eq # 0 THEN Prepend(Occ(r.i, 0, k, k, eq + 1), ParseFrom(specs, mode, argv, k + 1))
+          ELSE Prepend(Occ(r.i, 0, k, k + 1, 1), ParseFrom(specs, mode, argv, k + 2))
 
 ParseFrom(specs, mode, argv, k) ==
   IF k > Len(argv) THEN Ok(<<>>, k)
@@ -247,14 +247,16 @@ Spellings(specs, mode, inv) ==
 
 (***************************************************************************)
 (* Judging an observed outcome (used by Trace_OptParse).  The observation  *)
-(* is [ok, opts: Seq([i, sp, has, arg]), operands, err, fld, pn]:          *)
-(* fld = text of the field reported by ParseError::field().                *)
+(* is [ok, opts: Seq([i, sp, f, has, k, arg]), operands, err, fld, pn]:    *)
+(* f / k = index of the argument the occurrence's location / the           *)
+(* option-argument's origin points to (k = 0: none); fld = text of the     *)
+(* field reported by ParseError::field(); pn = the parser panicked.        *)
 (***************************************************************************)
 Expected(argv, r) ==
   [ok |-> r.ok,
    opts |-> [n \in 1..Len(r.opts) |->
-               [i |-> r.opts[n].i, sp |-> r.opts[n].sp, has |-> r.opts[n].k # 0,
-                arg |-> ArgText(argv, r.opts[n])]],
+               [i |-> r.opts[n].i, sp |-> r.opts[n].sp, f |-> r.opts[n].f, has |-> r.opts[n].k # 0,
+                k |-> r.opts[n].k, arg |-> ArgText(argv, r.opts[n])]],
    operands |-> IF r.ok THEN OPDrop(argv, r.p - 1) ELSE <<>>]
 
 Conforms(specs, mode, argv, obs) ==
@@ -266,6 +268,8 @@ Conforms(specs, mode, argv, obs) ==
                 /\ \A n \in 1..Len(e.opts) :
                      /\ obs.opts[n].i = e.opts[n].i
                      /\ obs.opts[n].sp = e.opts[n].sp
+                     /\ obs.opts[n].f = e.opts[n].f
+                     /\ obs.opts[n].k = e.opts[n].k
                      /\ obs.opts[n].has = e.opts[n].has
                      /\ obs.opts[n].arg = e.opts[n].arg
                 /\ obs.operands = e.operands
